@@ -116,6 +116,79 @@ def rand_case(rng):
     return mk(pipe, evs + TAIL, "coop-random")
 
 
+# ---- synchronous thread-safe operators (implementation + oracle only: no step model) -----------------
+TWO = ["merge", "zip", "combine", "withlatest", "takeuntil", "skipuntil", "sample", "buffer"]
+WRAP = [[], ["take", "2"], ["map", "add1"], ["fin"], ["filter", "even"], ["scan", "add", "0"]]
+
+
+def sync_cases(tier, seed):
+    """Every thread-safe two-input combinator (optionally under / above take, map, finalize_threads, …) over
+    two hot SubjectThreads: two emitters on the two inputs, an emitter against unsubscribe(), a terminal against
+    an item / a terminal / unsubscribe() — each for EVERY preemption point of the first thread.  Oracle: no
+    PANIC / DEADLOCK / HANG, nothing after unsubscribe() returned, the global delivery order is items* terminal?."""
+    rng = random.Random(seed + 2010)
+    out = []
+
+    def em(i, n):
+        return ["emit", str(i), n]
+    items = [["n", "1"], ["n", "2"]]
+    for two in TWO:
+        for inner in WRAP[:4]:
+            for outer in (WRAP if tier != "quick" else WRAP[:4]):
+                a_src = (inner + [["hot", "0"]]) if inner else ["hot", "0"]
+                pipe = [two, a_src, ["hot", "1"]]
+                if outer:
+                    pipe = outer + [pipe]
+                pres = [[], [em(0, ["n", "5"])], [em(1, ["n", "6"])], [em(0, ["n", "5"]), em(1, ["n", "6"])]]
+                pairs = [(em(0, items[0]), em(1, items[1])), (em(0, items[0]), ["unsub"]), (em(1, items[1]), ["unsub"]),
+                         (em(0, "c"), em(1, items[1])), (em(0, ["e", "3"]), em(1, "c")), (em(0, "c"), ["unsub"]),
+                         (em(1, ["e", "3"]), ["unsub"]), (["unsub"], em(0, items[0])), (em(1, "c"), em(0, "c"))]
+                for pre in (pres if tier != "quick" else [pres[rng.randrange(4)], pres[3]]):
+                    for a, b in pairs:
+                        for k in range(0, 9):
+                            tail = [em(0, ["n", "8"]), em(1, ["n", "9"]), em(0, "c"), em(1, "c")]
+                            out.append(mk(pipe, pre + [["par", str(k), a, b]] + tail, "coop-sync"))
+    # finalize_threads alone and stacked: delivery of a terminal against unsubscribe()
+    for pipe in (["fin", ["hot", "0"]], ["fin", ["fin", ["hot", "0"]]], ["fin", ["take", "1", ["fin", ["hot", "0"]]]],
+                 ["take", "1", ["fin", ["hot", "0"]]]):
+        for pre in ([], [em(0, ["n", "5"])]):
+            for a, b in ((em(0, "c"), ["unsub"]), (em(0, ["e", "3"]), ["unsub"]), (["unsub"], em(0, "c")),
+                         (em(0, ["n", "1"]), ["unsub"]), (["unsub"], em(0, ["n", "1"]))):
+                for k in range(0, 9):
+                    out.append(mk(pipe, pre + [["par", str(k), a, b], em(0, ["n", "8"]), em(0, "c")], "coop-sync"))
+    return out
+
+
+def has_time_op(case):
+    hs = set()
+
+    def walk(e):
+        if isinstance(e, list) and e and isinstance(e[0], str):
+            hs.add(e[0])
+            for x in e[1:]:
+                walk(x)
+    walk(case.field("pipe")[0])
+    return bool(hs & {"debounce", "throttle", "delay", "observeon", "buftime", "bufcounttime", "subscribeon",
+                      "delaysub"})
+
+
+def sync_oracle(case, lines):
+    f = oracle(case, lines, quiet=True)
+    if f:
+        return f
+    log = ""
+    for k in range(len(case.events)):
+        got = parse_line(lines.get(k))
+        if not got or "o" not in got:
+            continue
+        for it in got["o"]:
+            if it and it != "R":
+                log += it[0]
+                if not re.fullmatch(r"N*[EC]?", log):
+                    return {"kind": "grammar", "event": k, "detail": f"global delivery order = {log}"}
+    return None
+
+
 def cases(tier, seed):
     rng = random.Random(seed + 2002)
     out = exhaustive(tier)
